@@ -212,11 +212,18 @@ def check_module_state(mods):
                 if isinstance(n, ast.Call) and isinstance(n.func, ast.Attribute) and n.func.attr in ("append", "update", "setdefault", "add", "pop", "clear") \
                         and isinstance(n.func.value, ast.Name) and n.func.value.id in glob and n.func.value.id not in local:
                     bad.append(f"{q} line {n.lineno}: mutates module-level {n.func.value.id}")
+        # memoising decorators keep results across calls in a module-level cache (a later call may get an answer computed for an earlier state of
+        # the world: another file content under the same name, a mutated object)
+        for q, fn in fns:
+            for d in fn.decorator_list:
+                dn = dotted(d.func) if isinstance(d, ast.Call) else dotted(d)
+                if dn and dn.split(".")[-1] in ("lru_cache", "cache", "cached_property", "memoize"):
+                    bad.append(f"{q} line {fn.lineno}: results are memoised across calls (@{dn})")
         res.append({"name": f"{mod.split('.', 1)[1]}/no-module-level-state-written", "status": "refuted" if bad else "discharged", "reason": "; ".join(bad) or None})
     return res
 
 
-def check_option_forwarding(quals, prop, skip=("self", "data", "prior_samples", "joker_samples"), must_flow=()):
+def check_option_forwarding(quals, prop, skip=("self", "data", "prior_samples", "joker_samples"), must_flow=(), only_callees=None):
     """The public entry points hand their options to the helper that does the work: for every call from a listed method to a repository function,
     every option of the method that the callee ALSO accepts under the same name must be passed on, as an expression that mentions the option
     (so `max_posterior_samples=max_posterior_samples`, or a value computed from it, but not a constant and not nothing).
@@ -243,7 +250,7 @@ def check_option_forwarding(quals, prop, skip=("self", "data", "prior_samples", 
                 continue
             short = d.split(".")[-1]
             cands = [c for c in sigs.get(short, []) if not c[0].endswith("." + qual.split(".")[-1])]
-            if not cands or short in ("__init__",):
+            if not cands or short in ("__init__",) or (only_callees is not None and short not in only_callees):
                 continue
             cq, params, cnode = cands[0]
             is_method = bool(params) and params[0] in ("self", "cls")
@@ -301,4 +308,50 @@ def check_no_inplace_on_borrowed(quals, prop):
                            f"(a piece of an argument)")
         res.append({"name": f"{prop}/effects/{qual.split('.', 1)[1]}/arguments-not-updated-in-place", "status": "refuted" if bad else "discharged",
                     "reason": "; ".join(bad) or None})
+    return res
+
+
+def check_no_set_order_dependence(prop):
+    """Determinism: in a function that holds a generator (an rng / random_seed parameter), nothing may be iterated in SET order - the iteration order
+    of a set of strings depends on the interpreter's hash seed, so the same seed would give different draws in different processes.  A set that
+    is only tested for membership or passed through sorted() is fine."""
+    res = []
+    for mod in MODULES:
+        try:
+            fns, path = functions(mod)
+        except FileNotFoundError:
+            continue
+        rel = os.path.relpath(path, extract.REPO)
+        for q, fn in fns:
+            names, _ = _rng_sources(fn)
+            if not names:
+                continue
+            for n in ast.walk(fn):
+                for ch in ast.iter_child_nodes(n):
+                    ch._parent = n
+            bad = []
+            setnames = set()
+            for n in ast.walk(fn):
+                is_set = isinstance(n, (ast.Set, ast.SetComp)) or (isinstance(n, ast.Call) and dotted(n.func) in ("set", "frozenset"))
+                if not is_set:
+                    continue
+                par = getattr(n, "_parent", None)
+                if isinstance(par, ast.Call) and dotted(par.func) == "sorted":
+                    continue
+                if isinstance(par, ast.Compare):
+                    continue            # membership test
+                if isinstance(par, ast.Assign) and len(par.targets) == 1 and isinstance(par.targets[0], ast.Name):
+                    setnames.add(par.targets[0].id)
+                    continue
+                bad.append(f"{rel}:{n.lineno} a set is consumed in iteration order: `{ast.unparse(par)[:80]}`")
+            for n in ast.walk(fn):
+                it = None
+                if isinstance(n, (ast.For, ast.comprehension)):
+                    it = n.iter
+                elif isinstance(n, ast.Call) and dotted(n.func) in ("list", "tuple") and n.args:
+                    it = n.args[0]
+                if isinstance(it, ast.Name) and it.id in setnames:
+                    bad.append(f"{rel}:{getattr(n, 'lineno', getattr(it, 'lineno', 0))} the set `{it.id}` is consumed in iteration order")
+            res.append({"name": f"{prop}/effects/{mod.split('.', 1)[1]}.{q}/no-dependence-on-set-iteration-order", "status": "refuted" if bad else "discharged",
+                        "reason": "; ".join(bad) or None})
     return res
